@@ -182,6 +182,12 @@ FAMILIES = [
            required_labels=["dup-index-labels", "verdict-depends-on-selection", "opts=sample", "kind=series"]),
 ]
 
+from . import plx  # noqa: E402
+
+FAMILIES.append(
+    Family("polars", plx.eval_c20, strategy=plx.strat_c20, n_quick=350, n_thorough=3000, shards_quick=3, shards_thorough=12,
+           required_labels=["container=lf_full", "verdict-depends-on-selection", "opts=head", "opts=tail"]))
+
 
 def selftest():
     refmodel.selftest()
